@@ -23,6 +23,7 @@
 #include "errortypes.h"
 #include "settings.h"
 #include "suppressions.h"
+#include "verifev.h"
 
 #include <cassert>
 #include <sstream>
@@ -54,6 +55,8 @@ bool Executor::hasToLog(const ErrorMessage &msg)
             return true;
 
         std::lock_guard<std::mutex> lg(mErrorListSync);
+        VERIF_EV_LOCKED("mErrorListSync", lg);
+        VERIF_EV("wr", "mErrorList");
         if (mErrorList.emplace(std::move(errmsg)).second) {
             return true;
         }
